@@ -182,6 +182,43 @@ pub fn run(cx: &mut Cx) {
         }
     }
 
+    // (b2) letter/number boundary: every letter against the numbers around
+    // its alphabet rank and around its ASCII code, in both orders and at
+    // two depths.  (Inside known finding K1 the observation must equal the
+    // ASCII-weight model exactly, so any other letter weight is reported.)
+    if cx.shard == 0 {
+        for l in (b'a'..=b'z').chain(b'A'..=b'Z') {
+            let lc = l.to_ascii_lowercase();
+            let (rank, code) = ((lc - b'a' + 1) as i64, lc as i64);
+            let mut nums: Vec<i64> = vec![0, 1, 26, 27, 64, 65, 90, 91, 96, 97, 122, 123, 124];
+            for d in -1..=1 {
+                nums.push(rank + d);
+                nums.push(code + d);
+                nums.push(l as i64 + d);
+            }
+            nums.retain(|n| *n >= 0);
+            nums.sort();
+            nums.dedup();
+            for n in nums {
+                for (a, b) in [
+                    (format!("1{}", l as char), format!("1.{n}")),
+                    (format!("2.5{}3", l as char), format!("2.5.{n}.3")),
+                    (format!("{}", l as char), format!(".{n}")),
+                ] {
+                    for (x, y) in [(&a, &b), (&b, &a)] {
+                        cx.check(
+                            || format!("letter boundary A={x:?} B={y:?}"),
+                            |ev| {
+                                ev.count("workload/letter-boundary");
+                                check_pair(ev, &mut cache, &star, x, y)
+                            },
+                        );
+                    }
+                }
+            }
+        }
+    }
+
     // (c) corpus: real comparison patterns x real versions.
     if cx.tier != crate::fw::Tier::Mini {
         let pats = corpus::patterns();
